@@ -536,7 +536,7 @@ impl Prop for C19 {
     fn meta() -> Meta {
         Meta {
             level: "exploration",
-            rule: "Discrete-event simulation of the page: virtual ms clock, a (time, seq) ordered timer heap (handleCurrentState re-arms itself with setTimeout 5 ms while the interpreter runs; a break leaves the old chain pending and CONT starts another, so 2+ chains run concurrently), user events (submit of lines / replies / CONT / RUN / NEW / the break emoji / hostile text, CTRL-C) at PRNG-chosen virtual times biased to fall between ticks, an optional program file loaded at start-up (generated programs with a share of untokenizable, unnumbered, blank, CRLF and non-ASCII lines), and Date.now() seeds incl. clock jumps. Every adapter call is mirrored on a bare abasic_core::Interpreter twin. Oracle: no adapter call unwinds (= trap), no page `throw` arm is reached, after every call the adapter state maps to the twin's (Errored iff the twin's last call failed and the error was not taken), take_latest_output equals the twin's records (type + text), take_latest_error's first line equals the twin's error text and any further lines equal the twin's caret rendering, after an accepted NEW the twin is a default-constructed interpreter whether or not the core asked to be replaced (and if it did not, its probe must equal a fresh one). One simulation in 300 loads 200-700 lines and LISTs them in one call. distinct_nontrivial = distinct (event interleaving shape, inputs) hashes among simulations that executed >= 5 statements.",
+            rule: "Discrete-event simulation of the page: virtual ms clock, a (time, seq) ordered timer heap (handleCurrentState re-arms itself with setTimeout 5 ms while the interpreter runs; a break leaves the old chain pending and CONT starts another, so 2+ chains run concurrently), user events (submit of lines / replies / CONT / RUN / NEW / the break emoji / hostile text, CTRL-C) at PRNG-chosen virtual times biased to fall between ticks, an optional program file loaded at start-up (generated programs with a share of untokenizable, unnumbered, blank, CRLF and non-ASCII lines), and Date.now() seeds incl. clock jumps. Every adapter call is mirrored on a bare abasic_core::Interpreter twin. Oracle: no adapter call unwinds (= trap), no page `throw` arm is reached, after every call the adapter state maps to the twin's (Errored iff the twin's last call failed and the error was not taken), take_latest_output equals the twin's records (type + text), take_latest_error's first line equals the twin's error text and any further lines equal the twin's caret rendering, after an accepted NEW the twin is a default-constructed interpreter whether or not the core asked to be replaced (and if it did not, its probe must equal a fresh one). One simulation in 300 loads 200-700 lines and LISTs them in one call; one in 30 (with a loaded program) breaks in, edits or deletes program lines and submits resuming statements (READ, CONT, NEXT, RETURN, FN call, GOTO). distinct_nontrivial = distinct (event interleaving shape, inputs) hashes among simulations that executed >= 5 statements.",
             real: &["abasic-web/src/lib.rs (JsInterpreter, natively compiled rlib)", "abasic-core"],
             stub: &[
                 "the page script abasic-web/ts/main.ts: transliterated to Rust function by function (no TypeScript compiler / wasm target in the sandbox); drift guard: the check refuses to run (exit 2) if the script's normalised fingerprint is not one the transliteration was made from",
